@@ -229,9 +229,21 @@ func FixBool(v bool) bool    { return v }
 func Yield()                 {}
 func Gosched()               { time.Sleep(time.Millisecond) }
 
-// WaitQuiescent natively: a grace period, then the number of goroutines is not observable;
-// harnesses use their own completion flags.
-func WaitQuiescent() int    { time.Sleep(200 * time.Millisecond); return -1 }
+// WaitQuiescent natively: wait until the number of goroutines has not changed for 300 ms (at
+// least 200 ms, at most 5 s); harnesses use their own completion flags for anything finer.
+func WaitQuiescent() int {
+	time.Sleep(100 * time.Millisecond)
+	last, stable := runtime.NumGoroutine(), 0
+	for i := 0; i < 98 && stable < 6; i++ {
+		time.Sleep(50 * time.Millisecond)
+		if n := runtime.NumGoroutine(); n == last {
+			stable++
+		} else {
+			last, stable = n, 0
+		}
+	}
+	return -1
+}
 func BlockedDesc() string   { return "" }
 func HeldLocks() int        { return -1 }
 func HeldByMe() int         { return -1 }
